@@ -211,6 +211,13 @@ def check_aggregate(ctx, model):
                 t = v.blocks[b]["t"]
                 okt = [tgt for val, tgt in t["targets"] if val == inv.get("Ok")] or [t["otherwise"]]
                 ok_edges.append([(b, x) for x in okt])
+        elif c.kind == "call" and re.search(r"^std::result::Result::(is_ok|is_err)$", c.callee) and c.term["args"]:
+            os_ = v.origins_of_operand(c.term["args"][0], at=v.at_term(c.block))
+            if os_ and all(o.kind == "call" and o.a.endswith("QuerierWrapper::query") for o in os_):
+                te, fe = cmp_true_false_edges(v, b, c)
+                # cmp_true_false_edges is relative to the condition as written (negation included)
+                is_ok_true = c.callee.endswith("is_ok") != bool(c.neg)
+                ok_edges.append(te if is_ok_true else fe)
     n_dom = 0
     for sb in swaps:
         n = sum(1 for e in ok_edges if v.edge_dominated(sb, e))
